@@ -3,7 +3,7 @@ import ast
 import re
 
 from ..pycfg import CFG, walk_no_nested
-from ..source import AnalysisError, find_function, first_line, src, functions, enclosing_function, qualname
+from ..source import truth, side, atoms, conjuncts, linear, AnalysisError, find_function, first_line, src, functions, enclosing_function, qualname
 
 SM = "nemoguardrails/colang/v2_x/runtime/statemachine.py"
 RUNTIME_FILES = ["nemoguardrails/colang/v2_x/runtime/statemachine.py", "nemoguardrails/colang/v2_x/runtime/runtime.py",
@@ -22,12 +22,14 @@ def run(ctx):
     ctx.explanation = ("C06: typestate discipline of action Stop events at all emission sites, effect-set sibling check of _finish_flow/_abort_flow, "
                        "scope pairing on every exit of the expansion templates (emit2), and the activation bookkeeping writers.")
     ctx.decided = ["a: every Stop emission is guarded by status in {STARTING, STARTED}, the shared-count decrement reaching 0, and sets STOPPING before the emit",
+                   "a': the life-cycle events that update Action.status are applied independently of the flow that created the action (shared actions)",
                    "b: _finish_flow and _abort_flow contain the same set of lifetime effects (children, actions, heads, parent unlink, status, event, restart)",
                    "c: scopes opened by an expansion template are closed on every exit of the template (emit2)",
                    "d: `activated` is written only by the start/deactivate paths; restart is guarded identically in both siblings"]
     ctx.not_decided = ["the lifetime invariant over all hierarchies x histories x late/early/never Finished events"]
     t = ctx.tree.ast(SM)
     a_stop_discipline(ctx, t)
+    a_status_follows_events(ctx, t)
     b_siblings(ctx, t)
     d_activation(ctx)
     e_start_under_live_parent(ctx, t)
@@ -122,6 +124,37 @@ def a_stop_discipline(ctx, t):
                   line=c.lineno)
 
 
+def a_status_follows_events(ctx, t):
+    """`no Stop for an action that already finished` rests on Action.status following the action's life-cycle events.  The status is updated by
+    `<action>.process_event(event)`; an action can be SHARED (flow_scope_count > 1), so whether the update is applied may depend on the flows that HOLD the action
+    (`action_uids` of listening flows) - never on the one flow that created it (`Action.flow_uid`): when the creator ends first, the Finished event of the shared action
+    would be dropped, the status stays STARTED and the last holder sends a Stop for a finished action."""
+    fns = [f for f in functions(t) if any(isinstance(c, ast.Call) and isinstance(c.func, ast.Attribute) and c.func.attr == "process_event" for c in walk_no_nested(f))]
+    ctx.floor("C06.a.status-follows-events", SM, "functions applying life-cycle events to actions (process_event)", len(fns), 1)
+    for fn in fns:
+        # names derived from the creator link
+        tainted = set()
+        changed = True
+        while changed:
+            changed = False
+            for a in walk_no_nested(fn):
+                if isinstance(a, ast.Assign) and len(a.targets) == 1 and isinstance(a.targets[0], ast.Name) and a.targets[0].id not in tainted:
+                    if any((isinstance(x, ast.Attribute) and x.attr == "flow_uid") or (isinstance(x, ast.Name) and x.id in tainted) for x in ast.walk(a.value)):
+                        tainted.add(a.targets[0].id)
+                        changed = True
+        for c in [c for c in walk_no_nested(fn) if isinstance(c, ast.Call) and isinstance(c.func, ast.Attribute) and c.func.attr == "process_event"]:
+            # every test that decides whether this call runs: enclosing ifs/loops and earlier early-exits of the function
+            tests = [p.test for p in _anc(c, fn) if isinstance(p, (ast.If, ast.While))]
+            tests += [i.test for i in walk_no_nested(fn) if isinstance(i, ast.If) and i.lineno < c.lineno
+                      and any(isinstance(x, (ast.Return, ast.Continue, ast.Break, ast.Raise)) for b in i.body + i.orelse for x in ast.walk(b))]
+            bad = [tst for tst in tests if any((isinstance(x, ast.Attribute) and x.attr == "flow_uid") or (isinstance(x, ast.Name) and x.id in tainted) for x in ast.walk(tst))]
+            ctx.check("C06.a.status-follows-events", SM, qualname(fn), "process_event on %s" % src(c.func.value), not bad,
+                      "whether an action receives its life-cycle event does not depend on the flow that created it" if not bad else
+                      "the life-cycle event is applied only under `%s`, which depends on the flow that CREATED the action (Action.flow_uid): a shared action whose creator has ended no "
+                      "longer sees its Finished event, stays STARTED, and the last flow holding it sends a Stop for an action that already finished" % first_line(bad[0], 80),
+                      line=c.lineno)
+
+
 def _block_of(stmt):
     p = getattr(stmt, "_parent", None)
     for f in ("body", "orelse", "finalbody"):
@@ -153,8 +186,22 @@ def _effects(fn, stop_helpers=None):
                       (isinstance(s, ast.AugAssign) and src(s.target) == "%s.activated" % fs and isinstance(s.op, ast.Sub) and src(s.value) == "1") for s in n.body)
               and any(isinstance(x, ast.Return) for s in n.body for x in ast.walk(s)))
     eff["deactivate-refcount"] = n
-    n = first(lambda n: isinstance(n, ast.If) and "is_listening_flow(%s)" % fs in src(n.test) and isinstance(n.test, (ast.UnaryOp, ast.BoolOp))
-              and any(isinstance(s, ast.Return) for s in n.body))
+    # a flow that is not listening any more is left alone: guard form (`if not listening: return`) or wrapping form (`if listening [and ...]: <everything else>`)
+    def _early_out(n):
+        call = "is_listening_flow(%s)" % fs
+        if not isinstance(n, ast.If) or call not in src(n.test):
+            return False
+        v = truth(n.test, {call: True})       # where does a flow that is still listening go?
+        if v is None:
+            return False
+        goes, other = side(n, v), side(n, not v)
+        # the listening flow runs the rest (the terminal status is stored on its side); the other side does nothing but leave
+        rest_here = any(isinstance(a, ast.Assign) and src(a.targets[0]) == "%s.status" % fs for st in goes for a in ast.walk(st))
+        if rest_here:
+            return not other or all(isinstance(x, (ast.Return, ast.Pass)) or (isinstance(x, ast.Expr) and "log." in src(x)) for x in other)
+        # guard form: the other side returns and the rest follows the `if`
+        return any(isinstance(x, ast.Return) for x in other) and not goes
+    n = first(_early_out)
     eff["inactive-early-out"] = n
     n = first(lambda n: isinstance(n, ast.For) and "%s.child_flow_uids" % fs in src(n.iter)
               and any(isinstance(i, ast.If) and "not _is_child_activated_flow" in src(i.test)
@@ -245,10 +292,14 @@ def d_activation(ctx):
                   "`activated` is written outside the start/deactivate code paths: the activation reference count no longer reflects the running activators", line=n.lineno)
     # one release per activation: every increment of the activation count registers the activated instance,
     # unconditionally, in the activator's child list (deactivation releases one count per child entry)
+    n_inc = 0
     for rel, f, n in writers:
         v = n.value if isinstance(n, ast.Assign) else None
-        if v is not None and isinstance(v, ast.BinOp) and isinstance(v.op, ast.Add) and src(v.right) == "1":
-            inst = src(n.targets[0].value)
+        inc_plain = v is not None and isinstance(v, ast.BinOp) and isinstance(v.op, ast.Add) and src(v.right) == "1"
+        inc_aug = isinstance(n, ast.AugAssign) and isinstance(n.op, ast.Add) and src(n.value) == "1"
+        if inc_plain or inc_aug:
+            n_inc += 1
+            inst = src(n.targets[0].value) if inc_plain else src(n.target.value)
             blk = _block_of(n) or []
             reg = [s for s in blk if isinstance(s, ast.Expr) and isinstance(s.value, ast.Call) and isinstance(s.value.func, ast.Attribute) and s.value.func.attr == "append"
                    and src(s.value.func.value).endswith(".child_flow_uids") and [src(a) for a in s.value.args] == ["%s.uid" % inst]]
@@ -256,6 +307,7 @@ def d_activation(ctx):
                       "each additional activation of `%s` adds exactly one entry for it to the activator's child_flow_uids (one release per activation when the activator ends)" % inst if len(reg) == 1 else
                       "the activation count of `%s` is incremented without an unconditional child_flow_uids entry for the activator: when the activator ends only some of its activations are released and the activated flow keeps running after its last activator ended" % inst,
                       line=n.lineno)
+    ctx.floor("C06.d.activation-pairing", SM, "increments of an activation count", n_inc, 1)
     # immediate-finish guard in _advance_head_front: an activated flow that finishes without ever waiting is not restarted
     t = ctx.tree.ast(SM)
     fn = find_function(t, "_advance_head_front")
